@@ -44,3 +44,56 @@ Definition judge_c09 (l : list Z) : list Z :=
         else [0; 5]
   | _ => [0; 9]
   end.
+
+(* judge for the session stream "c09s": input = board-in ++ [n; ops..] ++ records, a record being
+   [q; P1..P6; C0; C1; stm; ep; castles; answer on the played board; answer on a fresh copy]
+   (the position of every question is taken from what the implementation reported - the snapshot the
+   fresh copy was restored from -, never from an engine model).  For positions in the property's
+   domain both answers must be what the rules say:
+     [1]            all questions answered correctly
+     [0; c; k]      question number k (from 0) is wrong; c = 10 + x for the played board, 20 + x for the
+                    fresh copy, x = 1 InCheck(side to move)   2 InCheck(other side)
+                    3 IsCheckmate true with a legal move   4 IsCheckmate false without   5 IsCheckmate domain / panic
+                    6 IsStalemate true with a legal move   7 IsStalemate false without   8 IsStalemate domain / panic
+     [0; 9; k]      malformed record *)
+Definition c09s_clause (p : pos) (q a : Z) : Z :=
+  let c := in_check_spec p (turn p) in
+  if q =? 0 then (if a =? (if c then 1 else 0) then 0 else 1)
+  else if q =? 1 then (if a =? (if in_check_spec p (flip (turn p)) then 1 else 0) then 0 else 2)
+  else if q =? 2 then
+    (if a =? 2 then (if c then 5 else 0)
+     else if negb c then 5
+     else if a =? 1 then (if no_legal_move p then 0 else 3)
+     else if a =? 0 then (if no_legal_move p then 4 else 0) else 5)
+  else
+    (if a =? 2 then (if c then 0 else 8)
+     else if c then 8
+     else if a =? 1 then (if no_legal_move p then 0 else 6)
+     else if a =? 0 then (if no_legal_move p then 7 else 0) else 8).
+
+Fixpoint c09s_records (fuel : nat) (l : list Z) (k : Z) : list Z :=
+  match fuel with
+  | O => [1]
+  | S fuel' =>
+      match l with
+      | [] => [1]
+      | q :: p1 :: p2 :: p3 :: p4 :: p5 :: p6 :: c0 :: c1 :: st :: e :: ca :: live :: fresh :: rest =>
+          match decode_board [p1; p2; p3; p4; p5; p6; c0; c1; st; e; ca; 0; 1; 1; 1] with
+          | Some (b, _) =>
+              let p := abs b in
+              if negb (valid p && normal_ep p) then c09s_records fuel' rest (k + 1) else
+              let x := c09s_clause p q live in
+              if negb (x =? 0) then [0; 10 + x; k] else
+              let y := c09s_clause p q fresh in
+              if negb (y =? 0) then [0; 20 + y; k] else c09s_records fuel' rest (k + 1)
+          | None => [0; 9; k]
+          end
+      | _ => [0; 9; k]
+      end
+  end.
+
+Definition judge_c09s (l : list Z) : list Z :=
+  match decode_board l with
+  | Some (_, n :: rest) => let recs := skipn (Z.to_nat n) rest in c09s_records (length recs) recs 0
+  | _ => [0; 9; 0]
+  end.
